@@ -208,3 +208,20 @@ prop("C15",
                 "emit a BOM per piece (utf-16) are a known finding.",
      not_decided=["decode side: prescan finds the declaration; same tree (C06/C01)", "serialize() prologue (filter applied iff encoding and inject_meta_charset)"],
      explanation="encode handler ground-checked on every code point; filter loop body bounded")
+
+
+prop("C09",
+     level="proof",
+     level_text="Proofs for ARBITRARY allow-lists (sets known only through membership): sanitize_token lets a tag token through as "
+                "a tag only if (namespace, name) is on the element allow-list (None falls back to the HTML namespace), drops "
+                "comments, turns every other tag into a Characters token without a name, leaves other tokens untouched; "
+                "__iter__ yields only what the gate returns. Bounded stand-ins (not counted): allowed_token for attribute maps "
+                "of <= 1 (quick) / 2 (thorough) attributes -- surviving attributes are allow-listed, values untouched, and a "
+                "surviving URL attribute has no scheme or an allowed one (allowed content type for data:) after the code's own "
+                "normalisation; disallowed_token; sanitize_css over ~3.3 million token concatenations never returns url(.",
+     level_note="Trusted: pyvc, z3; urllib.parse.urlparse, xml.sax.saxutils.(un)escape and re as uninterpreted functions; the step "
+                "from the code's URL normalisation to 'the scheme a browser resolves' is NOT decided (needs a WHATWG URL model). "
+                "Ground: no raw-text element on the default allow-list.",
+     not_decided=["browser-equivalence of the URL normalisation", "allowed_token / sanitize_css for unbounded inputs",
+                  "svg_attr_val_allows_ref url() stripping"],
+     explanation="element gate proved for arbitrary allow-lists; attribute/URL/CSS parts bounded")
